@@ -89,10 +89,33 @@ KF_C07_late_arrival_pause(G) ==
      /\ \E m \in 1..Len(G.members) :
           Cardinality({p \in Inbound(G.def, j) : Cnt(Fin(G, m).execd, p) > 0}) > Need(G.def, j)
 
+(* S19: the rerun request leaves a failed execution (or a fail command) of the first run behind; *)
+(* the re-executed tasks succeed and the workflow ends succeeded where the clean run fails      *)
+KF_C17_partial_rerun_succeeds(G) ==
+  /\ G.kind = "rerun"
+  /\ \A a \in Members(G, "rerun") : Fin(G, a).partial /\ Fin(G, a).wf = "succeeded"
+  /\ \A b \in Members(G, "clean") : Fin(G, b).wf = "failed"
+
+(* S14: executions of the first run that the rerun supersedes (some task has run more often than *)
+(* any clean run needs) keep their side effects: published contexts, terminal flags, staged joins  *)
+KF_C17_first_run_side_effects(G) ==
+  /\ G.kind = "rerun"
+  /\ \E a \in Members(G, "rerun") : \E t \in DOMAIN Fin(G, a).execd :
+        \A b \in Members(G, "clean") : Fin(G, a).execd[t] > Cnt(Fin(G, b).execd, t)
+
 GroupSignatures(G) ==
   (IF G.kind = "order" /\ KF_C07_late_arrival_after_fire(G) THEN {"KF_C07_late_arrival_after_fire"} ELSE {}) \cup
   (IF G.kind = "pause" /\ KF_C07_late_arrival_pause(G) THEN {"KF_C07_late_arrival_after_fire"} ELSE {}) \cup
+  (IF KF_C17_first_run_side_effects(G) THEN {"KF_C17_first_run_side_effects"} ELSE {}) \cup
+  (IF KF_C17_partial_rerun_succeeds(G) THEN {"KF_C17_partial_rerun_succeeds"} ELSE {}) \cup
+  (IF G.kind = "rerun" /\ KF_C07_late_arrival_pause(G) THEN {"KF_C07_late_arrival_after_fire"} ELSE {}) \cup
   (IF G.kind = "order" /\ KF_C06_inherited_delta_after_newer(G) THEN {"KF_C06_inherited_delta_after_newer"} ELSE {})
+
+(* C17: a rerun whose re-executed actions all succeed ends like some clean run (same definition,  *)
+(* the outcome assignment in which they had succeeded the first time; any report order)          *)
+C17_converge(G) ==
+  \A a \in Members(G, "rerun") :
+     \E b \in Members(G, "clean") : Fin(G, a).wf = Fin(G, b).wf /\ Fin(G, a).out = Fin(G, b).out
 
 Rel(G) ==
   LET FG(n, ok) == IF ok THEN {} ELSE {n} IN
@@ -102,6 +125,7 @@ Rel(G) ==
                            \cup FG("C08_published", C08_published(G)) \cup FG("C08_output", C08_output(G))
     [] G.kind = "persist" -> FG("C05_same_steps", C05_same_steps(G)) \cup FG("C05_same_final", C05_same_final(G))
                            \cup FG("C05_idempotent", C05_idempotent(G))
+    [] G.kind = "rerun" -> FG("C17_converge", C17_converge(G))
     [] OTHER -> {"unknown_group_kind"}
 
 (* 16 interleaved chains so that TLC's workers share the groups *)
